@@ -719,3 +719,25 @@ def probe_loss(seed, idx, fam="probe_loss"):
     return peer_script(f"{fam}/{idx}", seed * 61 + idx, st, opts=opts, lat=lat,
                        rand=[rng.randrange(65536), rng.choice([1, 65534, rng.randrange(65536)])],
                        info={"link": link, "probe_retx": retx, "lose": lose, "total": total})
+
+# ------------------------------------------------------------------ stale "stream ended" notification (C12, from MCSocket.tla)
+def evict_script(seed, idx, fam="evict"):
+    """The counterexample TLC found in MCSocket.tla (variant "stale_shutdown"), timed for the real dispatcher:
+    connection X dies of remote inactivity at T; at the same instant a datagram for X's key and a new SYN re-using
+    X's connection id arrive.  The dispatcher cleans X's entry up on delivery (dead receiver), accepts the new SYN
+    under the same key, and then processes X's queued "ended" notification."""
+    # (the runtime's timers have 1 ms granularity with an arbitrary phase: sweep the offset)
+    offs = list(range(2_995_000, 2_999_000, 250))
+    D = offs[idx % len(offs)]
+    st = [{"op": "accept", "sock": "A", "ep": "x"},
+          peer("syn", cid=300, seq=2000, to="A"),
+          {"op": "wait", "what": "accept", "timeout_us": 1 * SEC},
+          sleep(1010), peer("ack"), sleep(1010),
+          {"op": "accept", "sock": "A", "ep": "y"},
+          sleep(D),
+          peer("ack"), peer("syn", cid=300, seq=5000, to="A"),
+          sleep(1010), peer("ack"), sleep(500000),
+          {"op": "read", "ep": "y"}, peer("data", len=100), sleep(100000), peer("ack"),
+          sleep(1 * SEC), {"op": "drop", "ep": "x"}, {"op": "abandon", "ep": "y"}, {"op": "drop", "ep": "y"}, sleep(15 * SEC)]
+    return peer_script(f"{fam}/{idx}", seed * 47 + idx, st, opts=dict(inactivity_ms=3000), lat=1000, rand=[10, 100, 200, 300],
+                       info={"D": D})
